@@ -8,7 +8,7 @@ CHECKS = {
  'C01': ('E2 templates: eq/slots/symmetries never exceed the oracle closure', 'model_checking', '§4 C01'),
  'C02': ('E2 templates: every equality / redundancy / symmetry of the oracle closure is reported right after union returns', 'model_checking', '§4 C02'),
  'C04': ('E2 templates with rewrite steps: the real apply_rewrites (Rewrite::new, boxed searcher/applier, ematch_all, union_instantiations) from MIR on template final states; every oracle instance of a left side has its right side represented and equal afterwards', 'model_checking', '§4 C04'),
- 'C05': ('E2 templates with matching steps: every substitution returned by ematch_all binds all variables, its instance is found by lookup alone, matching leaves the e-graph unchanged; pattern slot names range over every slot issued before', 'model_checking', '§4 C05'),
+ 'C05': ('E2 templates with matching steps: every substitution returned by ematch_all binds all variables, its instance is found by lookup alone, matching leaves the e-graph unchanged; pattern slot names range over every slot issued before; multi-pattern matcher: every equation of a returned substitution holds', 'model_checking', '§4 C05'),
  'C14': ('E2 templates with the analyses MinSize and Depth of the harness crate (make/merge dispatched to their MIR): after every operation each class datum equals the oracle least value over all represented terms and the merge-fold of the crate own make over the class e-nodes; analyses with a modify hook outside', 'model_checking', '§4 C14'),
  'C15': ('E2: a call of apply_rewrites that returns false changed no observable and the oracle has no new instance; repeated calls stay false (Runner loop: Kani half, see DESIGN)', 'model_checking', '§4 C15'),
  'C06': ('E2 templates with extraction steps: Extractor::new / extract / get_best_cost from MIR (heap ordered by the crate own WithOrdRev::cmp) for AstSize and per-operator weighted costs; result is a member (lookup_rec_expr + eq), recomputed cost equals the reported cost, equals the oracle minimum over all represented terms, free slots are query arguments or fresh', 'model_checking', '§4 C06'),
